@@ -7,6 +7,7 @@ import Libvna.Props.C10
 import Libvna.Props.C13
 import Libvna.Props.C14
 import Libvna.Props.C15
+import Libvna.Props.C16
 import Libvna.Props.C17
 import Libvna.Props.C20
 import Libvna.Driver.Main
